@@ -844,7 +844,7 @@ def to_model_call(idx, toks, res, pre, post, flags):
                 else:
                     a["fail"] = S_CFINISH
             elif T is not None and T in (12, 13, 14, 15, 25, 6):
-                if legacy and (int(toks[4]) & 1024) and T != 13:
+                if legacy and (int(toks[4]) & 1024) and T in (14, 15, 25, 6) and (opts & 4):   # getTransformedSpecs in the wrapper
                     a["fail"] = S_LSCALE
                 else:
                     a["fail"] = S_XTHROW if T == 13 else S_CROP
